@@ -363,6 +363,15 @@ func (fv *FnVC) visible(t int) bool {
 	return a != nil && a[t]
 }
 
+func (fv *FnVC) hasSkolem(t string) bool {
+	for _, s := range fv.skolems {
+		if s.term == t && fv.visible(s.tag) {
+			return true
+		}
+	}
+	return false
+}
+
 func (fv *FnVC) instantiateLazies(sk, srt string) {
 	fv.skolems = append(fv.skolems, skolem{sk, srt, fv.curTag})
 	for _, lq := range fv.lazies {
